@@ -113,41 +113,48 @@ def pair_cases(rng, radii, nm, pairs, minw, per_pair):
             above = (math.floor(real) // ul + 1) * ul
             for m, side in ((below, "below"), (above, "above")):
                 d = [x * (m // ul) for x in u]
-                mode = rng.choice(["cell-image", "cell-image", "cell-inside", "nocell"])
-                if mode == "nocell":
-                    a = [rng.randrange(-20 * G, 20 * G) for _ in range(3)]
-                    b = [a[i] + d[i] for i in range(3)]
-                    cases.append(dict(els=[e1, e2], pos=[a, b], cell=None, kind="pair-%s-nocell" % side))
-                    continue
-                # domain: every perpendicular width exceeds the largest cutoff among the elements present
-                third = rng.choice(list(radii)) if rng.random() < 0.5 else None
-                present = [e1, e2] + ([third] if third else [])
-                need = max(cutoff100(radii, nm, x, y) for x in present for y in present) / 100.0
-                cell, ck = rand_cell(rng, need)
-                cm = np.array(cell, float)
-                ok = False
-                for _ in range(30):
-                    if mode == "cell-image":
-                        fr = np.array([rng.choice([0.002, 0.998, rng.random()]) for _ in range(3)])
-                    else:
-                        fr = np.array([rng.uniform(0.3, 0.6) for _ in range(3)])
-                    a, oka = wrap_int(fr @ cm, cell)
-                    b, okb = wrap_int([a[i] + d[i] for i in range(3)], cell)
-                    if oka and okb:
-                        ok = True
-                        break
-                if not ok:
-                    continue
-                els, pos = [e1, e2], [a, b]
-                if rng.random() < 0.5:      # listed the other way round
-                    els, pos = [e2, e1], [b, a]
-                # a bystander of a random element somewhere
-                if third:
-                    p3, ok3 = wrap_int(np.array([rng.random() for _ in range(3)]) @ cm, cell)
-                    if ok3:
-                        els = els + [third]
-                        pos = pos + [p3]
-                cases.append(dict(els=els, pos=pos, cell=cell, kind="pair-%s-%s-%s" % (side, mode, ck)))
+                for mode in [rng.choice(["cell-image", "cell-image", "cell-inside", "nocell"])] + (["across-face"] if side == "below" and rep == 0 else []):
+                    if mode == "nocell":
+                        a = [rng.randrange(-20 * G, 20 * G) for _ in range(3)]
+                        b = [a[i] + d[i] for i in range(3)]
+                        cases.append(dict(els=[e1, e2], pos=[a, b], cell=None, kind="pair-%s-nocell" % side))
+                        continue
+                    # domain: every perpendicular width exceeds the largest cutoff among the elements present
+                    third = rng.choice(list(radii)) if (rng.random() < 0.5 and mode != "across-face") else None
+                    present = [e1, e2] + ([third] if third else [])
+                    need = max(cutoff100(radii, nm, x, y) for x in present for y in present) / 100.0
+                    cell, ck = rand_cell(rng, need * (2.6 if mode == "across-face" else 1.0))      # across-face: a roomy cell, the first atom is far from every face
+                    cm = np.array(cell, float)
+                    ok = False
+                    for _ in range(30):
+                        if mode == "cell-image":
+                            fr = np.array([rng.choice([0.002, 0.998, rng.random()]) for _ in range(3)])
+                        elif mode == "across-face":
+                            # the first atom almost a full bond length inside the cell, its partner just beyond the face
+                            inv = np.linalg.inv(cm)
+                            df = np.array(d, float) @ inv
+                            ax = int(np.argmax(np.abs(df)))
+                            fr = np.array([rng.uniform(0.2, 0.8) for _ in range(3)])
+                            fr[ax] = (1.0 + rng.uniform(0.001, 0.01) - df[ax]) if df[ax] > 0 else (-rng.uniform(0.001, 0.01) - df[ax])
+                        else:
+                            fr = np.array([rng.uniform(0.3, 0.6) for _ in range(3)])
+                        a, oka = wrap_int(fr @ cm, cell)
+                        b, okb = wrap_int([a[i] + d[i] for i in range(3)], cell)
+                        if oka and okb:
+                            ok = True
+                            break
+                    if not ok:
+                        continue
+                    els, pos = [e1, e2], [a, b]
+                    if rng.random() < (0.25 if mode == "across-face" else 0.5):      # listed the other way round
+                        els, pos = [e2, e1], [b, a]
+                    # a bystander of a random element somewhere
+                    if third:
+                        p3, ok3 = wrap_int(np.array([rng.random() for _ in range(3)]) @ cm, cell)
+                        if ok3:
+                            els = els + [third]
+                            pos = pos + [p3]
+                    cases.append(dict(els=els, pos=pos, cell=cell, kind="pair-%s-%s-%s" % (side, mode, ck)))
     return cases
 
 
